@@ -217,7 +217,11 @@ def run(ctx):
 
     # --- severity table: extracted table vs live classes -------------------------------
     import py_gql.schema.differ.changes as changes
-    sev, rows = severity_table()
+    try:
+        sev, rows = severity_table()
+    except Exception as e:  # noqa  (already reported as a broken obligation by `extract`; the direct oracle must still run)
+        ctx.notes.append("severity table not extractable in run(): %s" % e)
+        rows = []
     for name, static, dynamic in rows:
         ctx.count()
         cls = getattr(changes, name)
